@@ -656,7 +656,7 @@ func runC09(c *core.Ctx) core.Meta {
 				u := norm(prov.Of(cc.Args[1]))
 				field := map[string]string{"SGPROffset": "WFSgprCount", "VGPROffset": "WIVgprCount", "LDSOffset": "GroupSegmentByteSize"}[m[1]]
 				g2 := map[string]string{"SGPROffset": gran["sregGranularity"], "VGPROffset": gran["vregGranularity"], "LDSOffset": gran["ldsGranularity"]}[m[1]]
-				okU := core.ProvMatch(regexp.MustCompile(`^recv\.unitsOccupy\(.*\.CodeObject\.` + field + `,` + g2 + `\)$`), u)
+				okU := core.ProvMatch(regexp.MustCompile(`^recv\.unitsOccupy\(.*\.CodeObject\.`+field+`,`+g2+`\)$`), u)
 				if m[1] == "LDSOffset" {
 					okU = ldsDemandOK(c, prov, u, g2)
 				}
@@ -685,7 +685,7 @@ func runC09(c *core.Ctx) core.Meta {
 					idx = 1
 				}
 				u := prov.Of(cc.Args[idx])
-				ok := core.ProvMatch(regexp.MustCompile(`^recv\.unitsOccupy\(.*\.CodeObject\.` + spec[0] + `,recv\.` + spec[1] + `\)$`), u)
+				ok := core.ProvMatch(regexp.MustCompile(`^recv\.unitsOccupy\(.*\.CodeObject\.`+spec[0]+`,recv\.`+spec[1]+`\)$`), u)
 				if f == "withinLDSLimitation" {
 					ok = ldsDemandOK(c, prov, u, "recv."+spec[1])
 				}
